@@ -298,7 +298,7 @@ def main(tier, seed):
     for r in pmap(work, specs):
         rep.merge_worker("boundary", r)
     rep.section("boundary", None, scenarios=len(specs))
-    ex = Explorer()
+    ex = Explorer(max_paths=3000, budget_s=90)
 
     def twin(inp):
         obs = body_request({"dir": "request", "entry": "create_keep", "tp": "keep", "number": 1})(inp)
@@ -307,7 +307,7 @@ def main(tier, seed):
     rep.witness("request field with falsified oracle", any(c.site.get("field") == "max_time" for c in ex.cexs))
 
     def one():
-        Explorer().run(body_request({"dir": "request", "entry": "create_measure", "tp": "measure", "number": 1, "named": False, "vary": "none", "sym": "local"}))
-        Explorer().run(body_results({"dir": "results", "kind": "keep", "role": "recv", "number": 2}))
+        Explorer(max_paths=4, budget_s=30).run(body_request({"dir": "request", "entry": "create_measure", "tp": "measure", "number": 1, "named": False, "vary": "none", "sym": "local"}))
+        Explorer(max_paths=4, budget_s=30).run(body_results({"dir": "results", "kind": "keep", "role": "recv", "number": 2}))
     rep.functions_encoded |= trace_functions(one)
     return rep.finish(replay)
